@@ -162,14 +162,14 @@ Example c06_example_monitor_flags_late_removekey :
                [1001;1; 1;1;1001; 0; 0; 0; 1;3];
                [0; 0; 0; 0; 1;2]]%N in
   let is6 (c i : nat) (x : issue) := match x with PropFalse 6%nat c' i' => Nat.eqb c c' && Nat.eqb i i' | _ => false end in
-  let r := run_check_keyed [1;0;0]%N evs obss in
+  let r := run_check_keyed0 [1;0;0]%N evs obss in
   existsb (is6 1%nat 4%nat) r = true /\ existsb (is6 4%nat 4%nat) r = true /\
   existsb (fun x => match x with PropFalse _ _ i => Nat.ltb i 4%nat | _ => false end) r = false.
 Proof. vm_compute. repeat split; reflexivity. Qed.
 Example c06_example_monitor_silent_on_model_trace :
   let evs := [[10;1]; [11;0]; [12;0]; [10;1]; [5;1]; [11;1]; [10;1]; [12;1]; [19]]%N in
   length (run_obs step_opt (hinit [1;0;0]%N) evs) = 9%nat /\
-  run_check_keyed [1;0;0]%N evs (run_obs step_opt (hinit [1;0;0]%N) evs) = [].
+  run_check_keyed0 [1;0;0]%N evs (run_obs step_opt (hinit [1;0;0]%N) evs) = [].
 Proof. vm_compute. split; reflexivity. Qed.
 
 (* ------------------------------------------------------------------ *)
